@@ -167,6 +167,7 @@ class World:
         self.files: dict[str, bytes] = {}  # canonical path -> content
         self.dirs: set[str] = {ROOT}
         self.journal: list[dict] = []
+        self.links: dict[str, str] = {}
         self._open = builtins.open
 
     def mkdir(self, path: str):
@@ -233,6 +234,12 @@ class World:
             v = tree[p]
             if p.endswith("/"):
                 self.mkdir(p.rstrip("/"))
+            elif isinstance(v, dict) and "symlink" in v:
+                d = os.path.dirname(p)
+                if d not in self.dirs:
+                    self.mkdir(d)
+                os.symlink(v["symlink"], real(p))
+                self.links[p] = v["symlink"]
             else:
                 self.write(p, dec_bytes(v))
 
@@ -243,6 +250,9 @@ class World:
         for r, ds, fs in _orig["walk"](base):
             for f in fs:
                 p = os.path.join(r, f)
+                if os.path.islink(p):
+                    out[CANON + p[len(base):]] = b"->" + os.readlink(p).encode()
+                    continue
                 with self._open(p, "rb") as fh:
                     out[CANON + p[len(base):]] = fh.read()
             for d in ds:
@@ -839,6 +849,10 @@ class SimPool:
 
 
 def _exc_by_name(name: str):
+    if name.endswith("0"):
+        # the same exception class raised without any message (str(e) == "")
+        cls = _exc_by_name(name[:-1])
+        return lambda msg: (cls("") if cls is not KeyError else KeyError())
     return {
         "OSError": OSError, "MemoryError": MemoryError, "KeyError": KeyError,
         "RecursionError": RecursionError, "ValueError": ValueError, "IndexError": IndexError,
